@@ -63,6 +63,12 @@ impl CaoLangAllocator {
         }
     }
 
+    /// Forget the collection history: the next collection is scheduled as on a new allocator
+    pub fn reset_next_gc(&self) {
+        let limit = self.limit.load(Ordering::Relaxed);
+        self.next_gc.store((limit / 4).max(16), Ordering::Relaxed);
+    }
+
     /// # Safety
     /// `alloc` is not thread safe. It is on the caller to ensure that only a single thread uses
     /// the allocator at a time
